@@ -91,8 +91,19 @@ fn attempt<A: Subject + AllPairs>(op: &str, a: &Spec, grow: usize, operand_ty: u
             if sig > 128 {
                 return (Expect::Err, Err(crate::exec::PanicInfo("HARNESS-SKIP".into())));
             }
-            let x = if sig == 128 { u128::MAX } else { (1u128 << sig) - 1 };
-            let uty = ALL_UTY.iter().copied().find(|t| t.bits() >= sig).unwrap();
+            // value patterns: 1 all ones, 0 only the top bit (everything between the capacity and it is zero), 2 top bit
+            // and bit 0, 3 alternating; in the native type selected by `oty` (or the narrowest that holds the value)
+            let ones = if sig == 128 { u128::MAX } else { (1u128 << sig) - 1 };
+            let x = match pattern % 4 {
+                1 => ones,
+                0 => 1u128 << (sig - 1),
+                2 => (1u128 << (sig - 1)) | 1,
+                _ => (0xAAAA_AAAA_AAAA_AAAA_AAAA_AAAA_AAAA_AAAAu128 & ones) | (1u128 << (sig - 1)),
+            };
+            let uty = match ALL_UTY.get(operand_ty).copied() {
+                Some(t) if t.bits() >= sig => t,
+                _ => ALL_UTY.iter().copied().filter(|t| t.bits() >= sig).min_by_key(|t| t.bits()).unwrap(),
+            };
             (Expect::Err, guarded(|| match A::from_uint(uty.make(x), false) {
                 Ok(v) => Outcome::ReturnedOk(lc(&v)),
                 Err(_) => Outcome::ReturnedErr,
@@ -348,10 +359,14 @@ pub fn run(ctx: &mut Ctx) {
         for op in ctor_ops {
             for grow in [1usize, 2, 7, 8, 9, w, w + 1, cap, 1000] {
                 for pat in 0..4 {
-                    if pat != 1 && op != "collect" {
+                    if pat != 1 && op != "collect" && op != "try_from_uint" {
                         continue;
                     }
-                    judge(ctx, &Case::new("overflow").with("a", empty.enc()).with("op", op).with("grow", grow).with("oty", 0).with("index", 0).with("pat", pat), "W-constructors-beyond-capacity");
+                    // try_from_uint: every native type (the ones too narrow for the value fall back to the narrowest that fits)
+                    let otys: &[usize] = if op == "try_from_uint" { &[0, 1, 2, 3, 4, 5] } else { &[0] };
+                    for oty in otys {
+                        judge(ctx, &Case::new("overflow").with("a", empty.enc()).with("op", op).with("grow", grow).with("oty", *oty).with("index", 0).with("pat", pat), "W-constructors-beyond-capacity");
+                    }
                 }
             }
         }
